@@ -45,8 +45,30 @@ def _rng_states():
     return (repr(np.random.get_state()), repr(random.getstate()))
 
 
+BIG_PAIRS = [(0, 3), (7, 2), (4, 3), (4, 5), (7, 3), (0, 7), (6, 5), (7, 0), (5, 1), (6, 7), (0, 4), (1, 7)]
+
+
+def _big_target(rng):
+    """a search that enqueues several thousand states (more than any fixed-size block of pre-drawn tie-break numbers) on a circuit whose
+    optimum is reached by several equally cheap placements"""
+    pairs = list(BIG_PAIRS)
+    if rng.random() < 0.5:
+        perm = list(range(8))
+        rng.shuffle(perm)
+        pairs = [(perm[a], perm[b]) for a, b in pairs]
+    return {"nq": 8, "instrs": [{"name": "cx", "qubits": [a, b]} for a, b in pairs], "seed": rng.choice([3, 3, rng.randrange(1 << 30)]),
+            "max_gamma": 1024.0, "max_backjumps": 10000, "gate_lo": True, "wire_lo": True, "width": 3, "exact": True}
+
+
 def cases(rng, tier):
     N = 36 if tier == "quick" else 300
+    for _ in range(2 if tier == "quick" else 8):
+        yield ("history", {"target": _mixed_target(rng), "history": [cutfind.gen_case(rng, tier) for _ in range(2)],
+                           "scramble": [rng.randrange(1 << 30), rng.randrange(1 << 30), rng.randint(0, 50)], "fresh": True, "hashseeds": True,
+                           "always_oracle": True})
+    for _ in range(1 if tier == "quick" else 6):
+        yield ("history", {"target": _big_target(rng), "history": [cutfind.gen_case(rng, tier) for _ in range(2)],
+                           "scramble": [rng.randrange(1 << 30), rng.randrange(1 << 30), rng.randint(0, 50)], "fresh": True, "always_oracle": True})
     for i in range(N):
         kak = rng.random() < 0.3
         if kak:
@@ -90,12 +112,27 @@ def _scramble(s):
         random.random()
 
 
-def _fresh(target):
+MIXED = [(7, 3, 5, [(2, 5), (2, 6), (0, 2), (1, 4), (0, 5), (4, 2), (1, 2), (2, 3), (4, 0), (5, 6)]),
+         (5, 3, 5, [(3, 4), (4, 1), (4, 0), (2, 0), (1, 0), (3, 0), (1, 3), (0, 1)])]
+
+
+def _mixed_target(rng):
+    """solutions that contain gate cuts *and* wire cuts (the order of the metadata entries is then observable)"""
+    nq, width, seed, pairs = rng.choice(MIXED)
+    return {"nq": nq, "instrs": [{"name": "cx", "qubits": [a, b]} for a, b in pairs], "seed": seed, "max_gamma": 1024.0, "max_backjumps": 10000,
+            "gate_lo": True, "wire_lo": True, "width": width, "exact": True}
+
+
+def _fresh(target, hashseed=None):
     # the same error mapping as core.call_real: a refusal in the fresh interpreter is a result, not a crash
     code = ("import sys, json; sys.path.insert(0, %r); from harness import cutfind, core; "
             "print('RESULT' + json.dumps(core.call_real(cutfind.run_real, json.loads(sys.argv[1]), timeout=280)))" % str(VERIF))
+    import os
+    env = dict(os.environ)
+    if hashseed is not None:
+        env["PYTHONHASHSEED"] = str(hashseed)   # string hashing differs from interpreter to interpreter
     p = subprocess.run([sys.executable, "-W", "ignore", "-c", code, json.dumps({k: v for k, v in target.items() if not k.startswith("_")})],
-                       capture_output=True, text=True, timeout=300)
+                       capture_output=True, text=True, timeout=300, env=env)
     for l in p.stdout.splitlines():
         if l.startswith("RESULT"):
             return json.loads(l[6:])
@@ -123,9 +160,12 @@ def run_real(kind, payload):
         if a != b:
             notes.append(f"result changed after the history: {json.dumps(a)[:150]} -> {json.dumps(b)[:150]}")
         if payload.get("fresh"):
-            c = _fresh(tgt)
-            if c != a:
-                notes.append(f"fresh interpreter gives {json.dumps(c)[:150]}, this process {json.dumps(a)[:150]}")
+            for hs in ((None,) if not payload.get("hashseeds") else (1, 3)):
+                c = _fresh(tgt, hs)
+                if c != a:
+                    notes.append(f"fresh interpreter{'' if hs is None else ' (PYTHONHASHSEED=%d)' % hs} gives {json.dumps(c)[:150]}, "
+                                 f"this process {json.dumps(a)[:150]}")
+                    break
         if "error" in a:
             return dict(a, notes=notes)
         return {"ok": a["ok"], "notes": notes}
